@@ -302,11 +302,29 @@ def renderVal {C : Type} (conv : Conv C) (tpl : Nat) (v : Val C) : Val C :=
 
 /-! ## `LaTeXToPDF.run` (`lena/output/latex_to_pdf.py:139-175`) -/
 
+def isPrefixL : List Char → List Char → Bool
+  | [], _ => true
+  | _ :: _, [] => false
+  | a :: as, b :: bs => a == b && isPrefixL as bs
+
+/-- `str.replace` on character lists for a non-empty pattern: leftmost non-overlapping occurrences (the fuel
+is the length of the text) -/
+def replaceL (pat rep : List Char) : Nat → List Char → List Char
+  | 0, s => s
+  | _, [] => []
+  | fuel + 1, c :: cs =>
+    if isPrefixL pat (c :: cs) then rep ++ replaceL pat rep fuel ((c :: cs).drop pat.length)
+    else c :: replaceL pat rep fuel cs
+
+/-- Python's `s.replace(pat, rep)` (non-empty `pat`) -/
+def strReplace (s pat rep : String) : String :=
+  if pat = "" then s else String.ofList (replaceL pat.toList rep.toList s.length s.toList)
+
 /-- `texfile_name.replace(".tex", ".pdf")` -/
-def pdfPathOf (tex : String) : String := tex.replace ".tex" ".pdf"
+def pdfPathOf (tex : String) : String := strReplace tex ".tex" ".pdf"
 
 /-- `pdf_name.replace(".pdf", "") + "." + format` -/
-def pngPathOf (pdf : String) (format : String) : String := pdf.replace ".pdf" "" ++ "." ++ format
+def pngPathOf (pdf : String) (format : String) : String := strReplace pdf ".pdf" "" ++ "." ++ format
 
 /-- lines 152-175 for a `.tex` value: `chg` = incoming `output.changed`.  When the key is absent the
 modification times are compared (`FileNotFoundError` if the `.tex` file is missing while the pdf
